@@ -382,3 +382,85 @@ def span_line(span):
     if m:
         return m.group(1), int(m.group(2))
     return span, 0
+
+
+def _place_fields(place):
+    out = []
+    for p in place.get('proj', []):
+        if isinstance(p, dict) and 'field' in p:
+            out.append((p['of'], p['field']))
+    return out
+
+
+def field_writes(facts, adt, field=None, crates=('chess',), kinds=('lib', 'bin')):
+    """All places in non-derived code where a field of `adt` (or any field if None) is assigned, mutably
+    borrowed, or used as a call destination.  Returns list of (Fn, block id, how, field)."""
+    res = []
+    for f in facts.fns.values():
+        if f.crate not in crates or f.crate_kind not in kinds:
+            continue
+        for b in f.blocks:
+            if b['cleanup']:
+                continue
+            for s in b['stmts']:
+                if s['k'] != 'assign':
+                    continue
+                for (a, fl) in _place_fields(s['place']):
+                    if a == adt and (field is None or fl == field):
+                        res.append((f, b['id'], 'assign', fl))
+                rv = s['rv']
+                if rv['k'] in ('ref', 'rawptr') and rv.get('mut'):
+                    for (a, fl) in _place_fields(rv['place']):
+                        if a == adt and (field is None or fl == field):
+                            res.append((f, b['id'], 'borrow_mut', fl))
+            t = b['term']
+            if t['k'] == 'call':
+                for (a, fl) in _place_fields(t['dest']):
+                    if a == adt and (field is None or fl == field):
+                        res.append((f, b['id'], 'call-dest', fl))
+    return res
+
+
+def field_reads(facts, adt, field=None, crates=('chess',), kinds=('lib',)):
+    """(Fn, block id, field) for every operand/borrow that reads a field of adt"""
+    res = []
+
+    def scan_op(f, b, op):
+        if op.get('k') in ('copy', 'move'):
+            for (a, fl) in _place_fields(op['place']):
+                if a == adt and (field is None or fl == field):
+                    res.append((f, b, fl))
+
+    for f in facts.fns.values():
+        if f.crate not in crates or f.crate_kind not in kinds:
+            continue
+        for blk in f.blocks:
+            if blk['cleanup']:
+                continue
+            b = blk['id']
+            for s in blk['stmts']:
+                if s['k'] != 'assign':
+                    continue
+                rv = s['rv']
+                k = rv['k']
+                if k in ('use', 'cast', 'repeat'):
+                    scan_op(f, b, rv['op'])
+                elif k == 'binop':
+                    scan_op(f, b, rv['a'])
+                    scan_op(f, b, rv['b'])
+                elif k == 'unop':
+                    scan_op(f, b, rv['a'])
+                elif k in ('ref', 'rawptr', 'discr'):
+                    for (a, fl) in _place_fields(rv['place']):
+                        if a == adt and (field is None or fl == field):
+                            res.append((f, b, fl))
+                elif k == 'aggregate':
+                    for o in rv['ops']:
+                        scan_op(f, b, o)
+            t = blk['term']
+            if t['k'] == 'call':
+                for o in t['args']:
+                    scan_op(f, b, o)
+            elif t['k'] == 'switch':
+                scan_op(f, b, t['discr'])
+    return res
